@@ -50,6 +50,21 @@ def cases_for(rng, tier):
                 if 'cropping_bbox' in spec.get('needs', []):
                     case['extra'][kw.get('cropping_box_key', 'cropping_bbox')] = [2, 2, 1, 8, 9, 6]
                 cases.append(case)
+    # sequence-valued arguments given as LISTS (what a pipeline rebuilt from JSON / YAML holds): the same object is called
+    # in the history and in the seeded call, so a configuration consumed or rewritten by a call shows
+    as_list = lambda v: {'__list__': v}
+    for name, kw in (('CropAndPad', {'px': as_list([[0, 2], 1, [1, 3], 0, [0, 2], 1])}),
+                     ('CropAndPad', {'px': None, 'percent': as_list([[0.0, 0.2], 0.1, [-0.2, 0.0], 0.0, 0.1, [0.0, 0.1]])}),
+                     ('CropAndPad', {'px': 1, 'pad_cval': as_list([1, 2, 3])}),
+                     ('RandomRotate90', {'axes': ['xy', 'yz', 'xz']}), ('Rotate', {'axes': ['xy', 'xz'], 'limit': as_list([10, 40])}),
+                     ('PadIfNeeded', {'min_height': 14, 'min_width': 13, 'min_depth': 11, 'position': 'random'}),
+                     ('RandomScale', {'scale_limit': as_list([-0.2, 0.3])}), ('Blur', {'blur_limit': as_list([3, 5])}),
+                     ('GaussNoise', {'var_limit': as_list([5.0, 30.0])}), ('RandomCropNearBBox', {'max_part_shift': as_list([0.2, 0.3, 0.1])})):
+        case = {'name': name, 'pipeline': [{'cls': name, 'args': dict(jsonable(kw), p=1.0)}], 'shape': [12, 10, 8], 'seed': rng.randint(0, 10 ** 6),
+                'data_seed': rng.randint(0, 10 ** 5), 'image': CTOR[name].get('image', 'uint8'), 'extra': {}, 'channels': None}
+        if 'cropping_bbox' in CTOR[name].get('needs', []):
+            case['extra']['cropping_bbox'] = [2, 2, 1, 8, 9, 6]
+        cases.append(case)
     # operators
     flips = [leaf('HorizontalFlip', {}), leaf('VerticalFlip', {}), leaf('Transpose', {}),
              leaf('RandomRotate90', {'axes': ['xy', 'yz', 'xz']})]
